@@ -9,7 +9,9 @@ import numpy as np  # noqa: E402
 import probdiffeq  # noqa: E402
 from probdiffeq import probdiffeq as pdq  # noqa: E402
 
-assert probdiffeq.__file__.startswith("/repo/"), probdiffeq.__file__
+import os as _os
+
+assert probdiffeq.__file__.startswith(_os.environ.get("VERIF_REPO", "/repo") + "/"), probdiffeq.__file__
 
 KINDS = {"dense": pdq.state_space_model_dense, "iso": pdq.state_space_model_isotropic,
          "blockdiag": pdq.state_space_model_blockdiag}
